@@ -161,14 +161,38 @@ theorem scaffold_all_or_nothing (flt : Fault) (keys : Keys) (stg : Nat → Name)
     ((scaffoldProject flt keys stg name w).2 = .err ∧ (scaffoldProject flt keys stg name w).1.fs = w.fs) :=
   scaffold_spec flt keys stg name w hwf hstg
 
-/-- An existing target — file, directory, symlink, dangling symlink — is never modified, and neither is
-anything else, under any fault plan. -/
-theorem existing_target_untouched (flt : Fault) (keys : Keys) (stg : Nat → Name) (name : Name) (w : World)
+/-- An existing target — file, directory (empty or not), symlink, dangling symlink — is never modified, and
+neither is anything else, under any fault plan (`scaffold_project` level: `name` is the validated name). -/
+theorem existing_target_untouched_scaffold (flt : Fault) (keys : Keys) (stg : Nat → Name) (name : Name) (w : World)
     (hwf : WF w.fs) (hstg : ∀ k, stg k ≠ name) (hex : w.fs [name] ≠ none) :
     (scaffoldProject flt keys stg name w).2 = .err ∧ (scaffoldProject flt keys stg name w).1.fs = w.fs := by
   rcases scaffold_spec flt keys stg name w hwf hstg with ⟨_, h, _⟩ | h
   · exact absurd h hex
   · exact h
+
+/-- The same for the whole command, over the RAW argument: the existence test, the staging name and the
+final rename all concern the TRIMMED name. Whatever the spelling of the argument (padding included), if
+anything exists at `trim raw` the command fails and the working directory is exactly what it was. -/
+theorem existing_target_untouched (flt : Fault) (keys : Keys) (stg : Name → Nat → Name) (raw : List Char)
+    (w : World) (hwf : WF w.fs) (hstg : ∀ n k, stg n k ≠ n) (hex : w.fs [trim raw] ≠ none) :
+    (newProject flt keys stg raw w).2 = .err ∧ (newProject flt keys stg raw w).1.fs = w.fs := by
+  rcases newProject_spec flt keys stg raw w hwf hstg with ⟨n, hv, hnone, _, _⟩ | h
+  · rw [arg_accepted_name hv] at hnone; exact absurd hnone hex
+  · exact h
+
+/-- Conversely an entry at the raw, untrimmed spelling is none of the command's business: the only paths
+that can change are those below the trimmed name. -/
+theorem raw_spelling_irrelevant (flt : Fault) (keys : Keys) (stg : Name → Nat → Name) (raw : List Char)
+    (w : World) (hwf : WF w.fs) (hstg : ∀ n k, stg n k ≠ n) (q : Path) (hq : q.head? ≠ some (trim raw)) :
+    (newProject flt keys stg raw w).1.fs q = w.fs q := by
+  rcases newProject_spec flt keys stg raw w hwf hstg with ⟨n, hv, _, _, hfs⟩ | ⟨_, hfs⟩
+  · rw [hfs, arg_accepted_name hv]
+    cases q with
+    | nil => rfl
+    | cons c r =>
+      have hc : c ≠ trim raw := by simpa using hq
+      simp [graft, hc]
+  · rw [hfs]
 
 /-- The complete tree: the declared program id and the keypair file come from the same keypair; every
 template is rendered at its path with the values of the name; directories are the ancestors. -/
@@ -222,5 +246,11 @@ example : (scaffoldProject (fun _ _ => none) ⟨"PK".toList, "[1]".toList⟩ (fu
 example : (scaffoldProject (fun c k => if c = .mkdir ∧ k = 1 then some .eexist else none) ⟨"PK".toList, "[1]".toList⟩
     (fun k => '.' :: (toString k).toList) "ab".toList { fs := fun _ => none }).2 = .ok := by decide +kernel
 example : WF (fun _ => none) := fun _ _ h => absurd rfl h
+/-- Padded argument, EMPTY directory at the trimmed name: refused (hypothesis of `existing_target_untouched` inhabited). -/
+example : (newProject (fun _ _ => none) ⟨"PK".toList, "[1]".toList⟩ (fun n k => '.' :: n ++ (toString k).toList)
+    " ab\t".toList { fs := upd (fun _ => none) ["ab".toList] .dir }).2 = .err := by decide +kernel
+/-- Padded argument, directory at the RAW spelling only: the project is created under the trimmed name. -/
+example : (newProject (fun _ _ => none) ⟨"PK".toList, "[1]".toList⟩ (fun n k => '.' :: n ++ (toString k).toList)
+    " ab".toList { fs := upd (fun _ => none) [" ab".toList] .dir }).2 = .ok := by decide +kernel
 
 end Cli.C20
